@@ -379,4 +379,148 @@ theorem k_arrayAppendBitArray_eq (a other : WArr) :
       rw [k_arrayAppendBit_eq]
       cases b.appendBit bit <;> rfl
 
+/-- the scan loop of `GetNextSet` / `GetNextUnset` (`for currentBits == 0 { bitsOffset++; if bitsOffset == len { return size }; … }`)
+    is the model's `scanNonzero` over the following words -/
+theorem scan_while (ws : List Nat) (inv : Bool) (size : Int) (body : Int × Int → Ctl (Int × Int) Int)
+    (hb0 : ∀ off cur : Nat, cur ≠ 0 → body ((off : Int), (cur : Int)) = .brk ((off : Int), (cur : Int)))
+    (hb1 : ∀ off : Nat, off + 1 ≤ ws.length → body ((off : Int), 0) =
+      if off + 1 = ws.length then .ret size
+      else match ws[off + 1]? with
+        | some w => .next (((off + 1 : Nat) : Int), ((if inv then not32 w else w : Nat) : Int))
+        | none => .panic oob) :
+    ∀ (k off cur fuel : Nat), off + 1 + k = ws.length → k < fuel →
+      whileLoop body fuel ((off : Int), (cur : Int)) =
+        match WArr.scanNonzero inv cur (ws.drop (off + 1)) off with
+        | none => .ret size
+        | some (o, c) => .brk ((o : Int), (c : Int)) := by
+  intro k
+  induction k with
+  | zero =>
+    intro off cur fuel hk hf
+    obtain ⟨fuel, rfl⟩ : ∃ n, fuel = n + 1 := ⟨fuel - 1, by omega⟩
+    rw [whileLoop_succ]
+    unfold WArr.scanNonzero
+    by_cases hc : cur = 0
+    · subst hc
+      have hd : ws.drop (off + 1) = [] := List.drop_eq_nil_of_le (by omega)
+      rw [show ((0 : Nat) : Int) = 0 from rfl, hb1 off (by omega), if_pos (by omega), hd]
+      simp
+    · rw [hb0 off cur hc]; simp [hc]
+  | succ k ih =>
+    intro off cur fuel hk hf
+    obtain ⟨fuel, rfl⟩ : ∃ n, fuel = n + 1 := ⟨fuel - 1, by omega⟩
+    rw [whileLoop_succ]
+    unfold WArr.scanNonzero
+    by_cases hc : cur = 0
+    · subst hc
+      have hlt : off + 1 < ws.length := by omega
+      have hd : ws.drop (off + 1) = ws[off + 1] :: ws.drop (off + 1 + 1) := List.drop_eq_getElem_cons hlt
+      rw [show ((0 : Nat) : Int) = 0 from rfl, hb1 off (by omega), if_neg (by omega), hd, List.getElem?_eq_getElem hlt]
+      simp only [ne_eq, not_true_eq_false, if_false]
+      exact ih (off + 1) _ fuel (by omega) (by omega)
+    · rw [hb0 off cur hc]; simp [hc]
+
+when_kernel Gzx.Gen.K16b.arrayGetNextSet in
+/-- `BitArray.GetNextSet(from)` = `WArr.getNextSet` for every fuel above `len(bits)`: `from >= size`, the first word masked with
+    `-(1 << (from&31))`, the scan over the following words with the early `return size` at the end of the slice,
+    `bitsOffset*32 + TrailingZeros32`, capped at `size` -/
+theorem k_arrayGetNextSet_eq (a : WArr) (frm fuel : Nat) (hf : a.words.length < fuel) :
+    Gen.K16b.arrayGetNextSet fuel (words a.words) a.size frm = (WArr.getNextSet a frm).map Int.ofNat := by
+  simp only [Gen.K16b.arrayGetNextSet, WArr.getNextSet, WArr.nextGeneric]
+  by_cases h1 : frm ≥ a.size
+  · resolve_ifs; rfl
+  resolve_ifs
+  rw [idxR a.words (frm / 32) _ (by gonorm; omega)]
+  unfold wordAt
+  cases hw : a.words[frm / 32]? with
+  | none => rfl
+  | some w0 =>
+    simp only [Bool.false_eq_true, if_false]
+    have hlt : frm / 32 < a.words.length := (List.getElem?_eq_some_iff.mp hw).1
+    have hcur : iand (w0 : Int) (wrap 32 (-(wrap 32 (ishl 1 (wrap 64 (iand (frm : Int) 31)))))) =
+        ((w0 &&& neg32 (1 <<< (frm % 32)) : Nat) : Int) := by
+      gonorm
+      rw [bit_natCast _ (frm % 32) (by omega) (by omega), neg32_natCast, iand_natCast]
+    have hoff : Int.tdiv (frm : Int) 32 = ((frm / 32 : Nat) : Int) := by gonorm; omega
+    rw [hcur, hoff, scan_while a.words false (a.size : Int) _ ?_ ?_ (a.words.length - (frm / 32 + 1)) (frm / 32) _ fuel
+          (by omega) (by omega)]
+    · cases WArr.scanNonzero false (w0 &&& neg32 (1 <<< (frm % 32))) (a.words.drop (frm / 32 + 1)) (frm / 32) with
+      | none => rfl
+      | some p =>
+        obtain ⟨o, c⟩ := p
+        simp only [brk_thenR, tz32_natCast, Except.map]
+        by_cases hr : o * 32 + Bits.tz32 c > a.size
+        · resolve_ifs; rfl
+        · resolve_ifs; congr 1
+    · intro off cur hc
+      simp only [Gen.K16b.arrayGetNextSet_body1]
+      have : ((cur : Int) == 0) = false := by simp; omega
+      simp [this]
+    · intro off hoff
+      simp only [Gen.K16b.arrayGetNextSet_body1, len_words]
+      by_cases he : off + 1 = a.words.length
+      · have : ((off : Int) + 1 == (a.words.length : Int)) = true := by simp; omega
+        simp [this, he]
+      · have : ((off : Int) + 1 == (a.words.length : Int)) = false := by simp; omega
+        simp only [beq_self_eq_true, if_true, this, Bool.false_eq_true, if_false, he]
+        rw [idxC a.words (off + 1) _ (by omega)]
+        unfold wordAt
+        cases a.words[off + 1]? <;> rfl
+
+when_kernel Gzx.Gen.K16b.arrayGetNextUnset in
+/-- `BitArray.GetNextUnset(from)` = `WArr.getNextUnset` on an array whose words are below 2^32 (part of the representation
+    invariant), for every fuel above `len(bits)`: as `GetNextSet` on the complemented words (`^b.bits[i]` in 32 bits) -/
+theorem k_arrayGetNextUnset_eq (a : WArr) (h32 : ∀ w ∈ a.words, w < W32) (frm fuel : Nat) (hf : a.words.length < fuel) :
+    Gen.K16b.arrayGetNextUnset fuel (words a.words) a.size frm = (WArr.getNextUnset a frm).map Int.ofNat := by
+  simp only [Gen.K16b.arrayGetNextUnset, WArr.getNextUnset, WArr.nextGeneric]
+  by_cases h1 : frm ≥ a.size
+  · resolve_ifs; rfl
+  resolve_ifs
+  rw [idxR a.words (frm / 32) _ (by gonorm; omega)]
+  unfold wordAt
+  cases hw : a.words[frm / 32]? with
+  | none => rfl
+  | some w0 =>
+    simp only [if_true]
+    have hlt : frm / 32 < a.words.length := (List.getElem?_eq_some_iff.mp hw).1
+    have hw0 : w0 < W32 := by
+      have := (List.getElem?_eq_some_iff.mp hw).2
+      rw [← this]; exact h32 _ (List.getElem_mem _)
+    have hcur : iand (wrap 32 (inot (w0 : Int))) (wrap 32 (-(wrap 32 (ishl 1 (wrap 64 (iand (frm : Int) 31)))))) =
+        ((not32 w0 &&& neg32 (1 <<< (frm % 32)) : Nat) : Int) := by
+      gonorm
+      rw [bit_natCast _ (frm % 32) (by omega) (by omega), neg32_natCast, not32_natCast _ hw0, iand_natCast]
+    have hoff : Int.tdiv (frm : Int) 32 = ((frm / 32 : Nat) : Int) := by gonorm; omega
+    rw [hcur, hoff, scan_while a.words true (a.size : Int) _ ?_ ?_ (a.words.length - (frm / 32 + 1)) (frm / 32) _ fuel
+          (by omega) (by omega)]
+    · cases WArr.scanNonzero true (not32 w0 &&& neg32 (1 <<< (frm % 32))) (a.words.drop (frm / 32 + 1)) (frm / 32) with
+      | none => rfl
+      | some p =>
+        obtain ⟨o, c⟩ := p
+        simp only [brk_thenR, tz32_natCast, Except.map]
+        by_cases hr : o * 32 + Bits.tz32 c > a.size
+        · resolve_ifs; rfl
+        · resolve_ifs; congr 1
+    · intro off cur hc
+      simp only [Gen.K16b.arrayGetNextUnset_body1]
+      have : ((cur : Int) == 0) = false := by simp; omega
+      simp [this]
+    · intro off hoff
+      simp only [Gen.K16b.arrayGetNextUnset_body1, len_words]
+      by_cases he : off + 1 = a.words.length
+      · have : ((off : Int) + 1 == (a.words.length : Int)) = true := by simp; omega
+        simp [this, he]
+      · have : ((off : Int) + 1 == (a.words.length : Int)) = false := by simp; omega
+        simp only [beq_self_eq_true, if_true, this, Bool.false_eq_true, if_false, he]
+        rw [idxC a.words (off + 1) _ (by omega)]
+        unfold wordAt
+        have hl : off + 1 < a.words.length := by omega
+        rw [List.getElem?_eq_getElem hl]
+        simp only []
+        rw [not32_natCast _ (h32 _ (List.getElem_mem hl))]
+        rfl
+
+/-- non-vacuity of `k_arrayGetNextUnset_eq` -/
+example : ∃ a : WArr, (∀ w ∈ a.words, w < W32) ∧ a.words.length < 3 := ⟨⟨[5, 4294967295], 40⟩, by decide, by decide⟩
+
 end Gzx.Obligations.K16bArr
